@@ -799,6 +799,28 @@ func c09Main(args []string) error {
 				}
 			}
 		}
+		// the arithmetic builders at widths where the multiplier thresholds and the GMW variants switch algorithms:
+		// single-operator programs, compared across the configurations on boundary and random operands
+		wide := []int{33, 48, 64}
+		if thorough() {
+			wide = []int{24, 33, 47, 48, 64, 65, 96, 100}
+		}
+		for _, w := range wide {
+			T := typeName(false, w)
+			for _, op := range []string{"*", "+", "-", "<"} {
+				rt := T
+				if op == "<" {
+					rt = "bool"
+				}
+				res := &Result{Case: n, Nontrivial: true, Class: "wide-operator"}
+				n++
+				c09Program(res, fmt.Sprintf("package main\n\nfunc main(a, b %s) %s {\n\treturn a %s b\n}\n", T, rt, op), nil, 0)
+				if res.Class == "sampled-64" {
+					res.Class = "wide-operator"
+				}
+				out.put(res)
+			}
+		}
 		return nil
 	case "graphs":
 		return c09Graphs(args[1:])
